@@ -16,19 +16,19 @@ from pathlib import Path
 import front
 
 LEAN_MODULE = "PydjinniModel.Props.C03"
-THEOREMS_PLANNED = [
+THEOREMS = [
+    "Pydjinni.Front.mem_addIncludes_iff",
     "Pydjinni.Front.mem_evalTargets_iff",
     "Pydjinni.Front.evalTargets_nodup",
-    "Pydjinni.Front.evalTargets_any",
-    "Pydjinni.Front.evalTargets_only_excludes",
-    "Pydjinni.Front.evalTargets_keys_independent_of_history",
-    "Pydjinni.Front.lexOne_id_maximal",
-    "Pydjinni.Front.advance_append",
-    "Pydjinni.Front.spanPos_delimits",
-    "Pydjinni.Front.parse_print_dataType",
+    "Pydjinni.Front.evalTargets_flag_set",
+    "Pydjinni.Front.evalTargets_nil",
+    "Pydjinni.Front.targetsOrAll_nil",
     "Pydjinni.Front.commentText_none_iff",
+    "Pydjinni.Front.stripL_no_leading",
+    "Pydjinni.Front.stripL_suffix",
+    "Pydjinni.Front.spanLen_le",
+    "Pydjinni.Front.idLen_le",
 ]
-THEOREMS = []
 LEVEL = "proof"
 
 
